@@ -266,6 +266,22 @@ pub fn run(cfg: &Cfg, rep: &mut Rep) {
             check(rep, &tab, y, m, d, rr.below(24) as u8, rr.below(60) as u8, rr.below(60) as u8, rr.below(1_000_000_000) as u32, ts, z % 11 == 0);
         }
     });
+    // every instant of the shared reading lattice (references, their mirror images, scale constants, leap seconds, century
+    // and year limits +- a few ns), decoded into fields by the model and constructed from them
+    let mut li = 0usize;
+    for ts in SCALES {
+        for c in crate::gen::reading_lattice(ts, &tab) {
+            li += 1;
+            if li % NSHARDS as usize != sh as usize {
+                continue;
+            }
+            let f = crate::model::text::fields_of(c, ts);
+            if f.y >= i32::MIN as i64 && f.y <= i32::MAX as i64 {
+                rep.class("valid/reading-lattice");
+                check(rep, &tab, f.y as i32, f.m as u8, f.d as u8, f.h as u8, f.mi as u8, f.s as u8, f.ns, ts, li % 4 == 0);
+            }
+        }
+    }
     // sampled years out to +-30000
     let nfar = cfg.budget(16_000).max(200);
     for _ in 0..nfar {
